@@ -82,4 +82,4 @@ def replay_hcheck(check, doc):
     space = spaces[si] if si < len(spaces) else spaces[0]
     space = engine_h.Space(cfg, space.alphabet, space.depth, name=doc.get("space"))
     hist = codec.dec(doc["history"])
-    return engine_h.replay(check, space, hist)
+    return engine_h.replay(check, space, hist, isolated_for=doc.get("oracle"))
